@@ -26,6 +26,21 @@ Theorem C15_emit_index_sound :
 Proof. exact emit_index_sound. Qed.
 Print Assumptions C15_emit_index_sound.
 
+(* compile_error_loc, per function: a compilation error raised while the cards of a function are compiled
+   (EmptyVariable, TooManyLocals, InvalidJump, SuperLimitReached) has a location whose card index
+   resolves, through Module::get_card, to a card of that function *)
+Theorem C15_compile_error_loc :
+  forall (cards : list card) (s : cstate) (e : cerr) (l : option loc),
+    forallb repeat_free cards = true ->
+    (cs_idx s = [] \/ exists x, cs_idx s = [x]) ->
+    process_cards cards 0 s = RErr e l ->
+    exists ns idx, l = Some (ns, idx) /\ ns = cs_ns s /\
+      forall (m : module) name f,
+        nth_error (m_functions m) (cs_fn s) = Some (name, f) -> f_cards f = cards ->
+        exists c, CardEdit.get_card m idx = CardEdit.ROk c.
+Proof. exact compile_error_loc. Qed.
+Print Assumptions C15_compile_error_loc.
+
 (* finding N-C15-1 (confirmed on the crate, `cao-verif-harness c10-witness`): the count card of a Repeat
    is compiled under sub-index [.., 0, 0] (push_subindex(0) followed by compile_subexpr, which pushes
    another 0) while Card::get_child(Repeat, 0) is the count card: the location of its instructions
